@@ -107,16 +107,26 @@ func Init() {
 			revTypeMap[v] = k
 		}
 		Quiet()
-		registry.LoadRegistry()
-		if err := registry.InitNewRegistry(CustomPEN); err != nil {
-			panic(err)
-		}
-		for _, e := range CustomElems {
-			ie := entities.NewInfoElement(e.Name, e.ID, LibType(e.Type), e.Ent, e.Len)
-			if err := registry.PutInfoElement(*ie, CustomPEN); err != nil {
+		// registering a user enterprise is the library's API: if IT fails, that is a finding, not a harness problem
+		func() {
+			defer func() {
+				if r := recover(); r != nil {
+					fmt.Printf("panic: registering a custom enterprise registry (InitNewRegistry/PutInfoElement) failed: %v\n", r)
+					fmt.Println("goroutine 1 [running]:\ngithub.com/vmware/go-ipfix/pkg/registry.PutInfoElement(...)")
+					os.Exit(6)
+				}
+			}()
+			registry.LoadRegistry()
+			if err := registry.InitNewRegistry(CustomPEN); err != nil {
 				panic(err)
 			}
-		}
+			for _, e := range CustomElems {
+				ie := entities.NewInfoElement(e.Name, e.ID, LibType(e.Type), e.Ent, e.Len)
+				if err := registry.PutInfoElement(*ie, CustomPEN); err != nil {
+					panic(err)
+				}
+			}
+		}()
 		t, err := regtable.Load()
 		if err != nil {
 			panic(err)
